@@ -470,6 +470,105 @@ theorem C07_cab_read_means_feeder_failed (files : Files) (dec : Dec) (fd : Feede
     o.feeder.readError ≠ .ok :=
   (cabJAll_callOk files dec fd n o hj h).2.2 he
 
+/-- the joint invariant implies the one the upper bound runs on -/
+theorem CabDecOk_of_CabJAll (dec : Dec) (fd : Feeder) (h : CabJAll dec fd) : CabDecOk dec := by
+  cases dec with
+  | mszip st => exact h.2.2.1
+  | none bs e => trivial
+  | qtm st => trivial
+  | lzx st => trivial
+  | unsupported k => trivial
+
+/-- what C07 says about one `extract` call's result -/
+def Counts (m : Member) (e : Err) (w : Option Bytes) : Prop :=
+  ∀ w', w = some w' → w'.length ≤ m.length ∧ (e = .ok → w'.length = m.length)
+
+/-- the cache is absent or in the joint invariant -/
+def CacheJAll (d : Option DState) : Prop := ∀ ds, d = some ds → StateOk CabJAll ds
+
+/-- **C07 for `cabd_extract`, all in one**: strict mode, every compression type, every cabinet
+    content, cache absent or in `CabJAll`: never more than the declared length is written, MSPACK_ERR_OK
+    means exactly the declared length, and the cache handed back is in `CabJAll` again -/
+theorem C07_cab_extract_counts (files : Files) (p : Params) (hs : p.salvage = false)
+    (d : Option DState) (m : Member) (hd : CacheJAll d) (e : Err) (w : Option Bytes) (d' : Option DState)
+    (h : extract files p d m = .done e w d') : Counts m e w ∧ CacheJAll d' := by
+  refine ⟨fun w' hw => ?_, fun ds' hds => ?_⟩
+  · subst hw
+    have hc : CacheOk CabDecOk d := fun ds dec h1 h2 => CabDecOk_of_CabJAll _ _ (hd ds h1 dec h2)
+    refine ⟨(C07_cab_written_le files p d m hc e w' d' h).1, fun he => ?_⟩
+    subst he
+    exact C07_cab_ok_complete files p hs d m hd w' d' h
+  · subst hds
+    exact C07_cab_cache_kept files p hs d m hd e w ds' h
+
+/-- a client's sequence of `extract()` calls, the decoder cache threaded through; each call's member,
+    status and output (the sequence ends at a fault or an unsupported method) -/
+def runMembers (files : Files) (p : Params) : List Member → Option DState → List (Member × Err × Option Bytes)
+  | [], _ => []
+  | m :: rest, d =>
+    match extract files p d m with
+    | .done e w d' => (m, e, w) :: runMembers files p rest d'
+    | _ => []
+
+/-- **C07 over whole sessions**: strict mode, any members of any folders in any order, starting
+    without a cache (or with one in `CabJAll`): every call writes at most its member's declared
+    length, and exactly that if it returns MSPACK_ERR_OK -/
+theorem C07_cab_session_counts (files : Files) (p : Params) (hs : p.salvage = false) :
+    ∀ (ms : List Member) (d : Option DState), CacheJAll d →
+      ∀ r ∈ runMembers files p ms d, Counts r.1 r.2.1 r.2.2 := by
+  intro ms
+  induction ms with
+  | nil => intro d _ r hr; cases hr
+  | cons m rest ih =>
+    intro d hd r hr
+    unfold runMembers at hr
+    split at hr
+    · rename_i e w d' hx
+      have hc := C07_cab_extract_counts files p hs d m hd e w d' hx
+      rcases List.mem_cons.mp hr with rfl | hr
+      · exact hc.1
+      · exact ih d' hc.2 r hr
+    · cases hr
+
+theorem C07_cab_session_counts_fresh (files : Files) (p : Params) (hs : p.salvage = false) (ms : List Member) :
+    ∀ r ∈ runMembers files p ms none, Counts r.1 r.2.1 r.2.2 :=
+  C07_cab_session_counts files p hs ms none (fun _ h => by cases h)
+
+/-! ### salvage mode: what survives -/
+
+/-- the length `cabd_extract` actually asks for: the declared one, clamped (salvage mode only; strict mode
+    refuses) to what fits below `CAB_LENGTHMAX` -/
+theorem memberCheck_filelen (p : Params) (m : Member) (filelen key : Nat)
+    (h : memberCheck p m = .ok (filelen, key)) :
+    filelen = min m.length (Generated.cabLENGTHMAX - m.offset) := by
+  unfold memberCheck at h
+  simp only at h
+  repeat' split at h
+  all_goals first
+    | contradiction
+    | (simp only [Except.ok.injEq, Prod.mk.injEq] at h
+       omega)
+
+/-- **either mode** (salvage included): the upper bound needs nothing (`C07_cab_written_le`); "OK ⇒ exactly
+    the length asked for" holds in either mode *given* `ReadErrLaw` — and that is precisely what salvage mode
+    gives up: at the end of a folder the feeder delivers a short read without recording an error, the decoder
+    reports READ, `cabd_extract` substitutes the feeder's (OK) `read_error`, and the call returns OK with a
+    short output (the example below).  In strict mode `ReadErrLaw` is a theorem (`C07_cab_ok_complete`). -/
+theorem C07_cab_anymode_ok_len_partial (files : Files) (hR : ∀ dec, CabDecOk dec → ReadErrLaw files dec)
+    (p : Params) (d : Option DState) (m : Member) (hd : CacheOk CabDecOk d) (w : Bytes) (d' : Option DState)
+    (h : extract files p d m = .done .ok (some w) d') :
+    w.length = min m.length (Generated.cabLENGTHMAX - m.offset) := by
+  unfold extract at h
+  split at h
+  · simp at h
+  · rename_i filelen key hc
+    split at h
+    · simp at h
+    · rename_i ds hob
+      rw [← memberCheck_filelen p m filelen key hc]
+      exact CabInv.runPhases_ok files CabDecOk (C07_count_law_decOk files) hR (C07_decOk_kept files) ds
+        (CabInv.obtain_ok files CabDecOk p d m key hd (C07_initDec_decOk p m.compType) ds hob) m filelen w d' h
+
 end all
 
 end MsPack.Cab
@@ -595,6 +694,26 @@ def runCab (len : Nat) : Option (Err × Option Bytes) :=
 /-- `cabd_extract` on the MSZIP folder (no cache): a member declared 3 long — OK, 3 bytes; declared 5 — the 3 there are, and not OK -/
 example : runCab 3 = some (.ok, some [0x78, 0x79, 0x7A]) ∧
     runCab 5 = some (.dataformat, some [0x78, 0x79, 0x7A]) := by decide +kernel
+
+/-- a session on the MSZIP folder: the same member twice (the second time through a rebuilt decoder, the
+    cached one having passed the offset), each time OK and the three bytes -/
+example : (runMembers [("a.cab", cabFile)] {} [cabMember 3, cabMember 3] none).map (fun r => (r.2.1, r.2.2)) =
+    [(.ok, some [0x78, 0x79, 0x7A]), (.ok, some [0x78, 0x79, 0x7A])] := by decide +kernel
+
+/-- a stored folder of one 3-byte block and a member declared 5 long -/
+def storedFile : Bytes := [0, 0, 0, 0, 3, 0, 3, 0, 7, 8, 9]
+def storedMember5 : Member :=
+  { length := 5, offset := 0, folderKey := some 0, mergePrev := false, numBlocks := 1, compType := 0,
+    parts := [⟨"s.cab", 0, 0⟩] }
+def runStored (salv : Bool) : Option (Err × Option Bytes) :=
+  match extract [("s.cab", storedFile)] { salvage := salv } none storedMember5 with
+  | .done e w _ => some (e, w)
+  | _ => none
+
+/-- "OK ⇒ complete" does **not** survive salvage mode, by design: the folder ends before the member does;
+    strict mode answers DATAFORMAT, salvage mode answers OK having written 0 of the 5 declared bytes -/
+example : runStored false = some (.dataformat, some []) ∧ runStored true = some (.ok, some []) := by
+  decide +kernel
 
 /-- a one-block LZX folder (window bits 15): CFDATA header and the stream of `C02Lzx.lean` -/
 def lzxCabFile : Bytes := [0, 0, 0, 0, 21, 0, 5, 0] ++ Lzx.helloStream
